@@ -13,15 +13,18 @@ PROPERTY = 'C15'
 EXPLANATION = (
     'Decided from source: (C15.1) selectors select: VLOOKUP lookup_value/col_index_num, MATCH lookup_value/match_type and '
     'CHOOSE index_num are in the backward slice (data, or control through a value-selecting branch) of a value-returning '
-    'return - influencing only a raise does not count; (C15.2) criteria syntax: the operator table is {=,<>,<,<=,>,>=} mapped to '
-    'the matching comparison wrappers, the prefix group of the criteria regex cannot swallow the first character of a numeric '
-    'operand (-, .), and when the prefix is not an operator the whole criterion text is the operand of "="; (C15.3) index guards: '
-    'decision table of the CHOOSE guard at 0, 1, n, n+1 (raises #VALUE! outside 1..n, returns values[i-1] inside), MATCH returns '
-    'position+1, every value returned by VLOOKUP is dominated by the not-found (#N/A) and column-range guards; (C15.4) '
-    'COUNTIF/COUNTIFS/SUMIF/SUMIFS apply the check closure to every cell (comprehension over the whole range, no filter, criteria '
-    'combined with all()).'
-    ' (C15.5) parse_criteria(criterion)(cell value) on 16 witness criteria x cell values through the real operator wrappers and comparison methods: six operators, plain values, texts case-insensitively also for <>.'
-    ' (C15.6) a witness workbook: MATCH (exact, approximate ascending / descending, repeated values, keys below / between / on / above the values, texts), COUNTIF / COUNTIFS with one to four criteria, CHOOSE at and beyond its bounds against hand-worked linear scans.')
+    'return - influencing only a raise does not count; (C15.2) criteria syntax: the operator table is {=,<>,<,<=,>,>=} '
+    'mapped to the matching comparison wrappers, the prefix group of the criteria regex cannot swallow the first character '
+    'of a numeric operand (-, .), (the fallback for a prefix that is no operator and the operand order of the check are '
+    'decided on values by C15.5); (C15.3) index guards: decision table of the CHOOSE guard at 0, 1, n, n+1 (raises #VALUE! '
+    'outside 1..n, returns values[i-1] inside), every value returned by VLOOKUP is dominated by the not-found (#N/A) and '
+    'column-range guards; (C15.4) a witness workbook for COUNTIF / COUNTIFS: matches in the first and the last row, after '
+    'long runs of non-matches, criteria over different columns that agree only in some rows (SUMIF / SUMIFS are not '
+    'decided: the installed pandas does not support them). (C15.5) parse_criteria(criterion)(cell value) on 16 witness '
+    'criteria x cell values through the real operator wrappers and comparison methods: six operators, plain values, texts '
+    'case-insensitively also for <>. (C15.6) a witness workbook: MATCH (exact, approximate ascending / descending, repeated'
+    ' values, keys below / between / on / above the values, texts), COUNTIF / COUNTIFS with one to four criteria, CHOOSE at'
+    ' and beyond its bounds against hand-worked linear scans.')
 NOT_DECIDED = 'tables beyond the witness columns; SUMIF / SUMIFS (the installed pandas lacks DataFrame.applymap, which they need); VLOOKUP on real pandas frames'
 TRUSTED = ['pandas set_index/loc semantics for VLOOKUP', 'workbook scenarios: pandas storage of range arrays as row-major rows, numpy on Python numbers (IEEE results, 64-bit integer wrap), dateutil.parser.parse rejecting texts that are no dates, openpyxl address arithmetic, inspect.signature built from the FunctionDef', 'typing.Union aliases compare as sets of their members']
 
